@@ -25,6 +25,7 @@ def run(ctx, res):
     from harness.gen import scenarios
     from harness.gen.histories import VERSIONS
     cases = (scenarios.directed_cases(ctx, "c01x", 6, scenarios.sleep_history, scenarios.SLEEP_VERSIONS, length=(10, 16))
+             + scenarios.corpus_cases("C08") + scenarios.corpus_cases("C10")
              + scenarios.directed_cases(ctx, "c01s", ctx.budget(120, 2500), scenarios.sleep_history, scenarios.SLEEP_VERSIONS)
              + scenarios.directed_cases(ctx, "c01o", ctx.budget(80, 1500), scenarios.ota_history, VERSIONS)
              + gwcheck.gen_cases(ctx, "c01", ctx.budget(200, 4000), mqtt_rate=0.25))
